@@ -94,6 +94,29 @@ theorem halves_length {α : Type*} (v : List α) (k : Nat) (hv : v.length = 2 ^ 
   · rw [List.length_take, h2]; omega
   · rw [List.length_drop, h2]; omega
 
+/-- `v_i ↦ v_i · σ·ρ^i` (running twiddle, as the tables store them) -/
+def scaleFrom (σ ρ : R) : List R → List R
+  | [] => []
+  | c :: cs => c * σ :: scaleFrom (σ * ρ) ρ cs
+
+theorem scaleFrom_map (σ ρ : R) (v : List R) : (scaleFrom σ ρ v).map (· * ρ) = scaleFrom (σ * ρ) ρ v := by
+  induction v generalizing σ with
+  | nil => rfl
+  | cons c cs ih => simp only [scaleFrom, List.map_cons, ih]; congr 1; ring
+
+theorem scalePow_eq_scaleFrom (ρ : R) (v : List R) : scalePow ρ v = scaleFrom 1 ρ v := by
+  induction v with
+  | nil => rfl
+  | cons c cs ih => simp only [scalePow, scaleFrom, ih, scaleFrom_map, mul_one]
+
+theorem scalePow_cons (ρ c : R) (cs : List R) : scalePow ρ (c :: cs) = c :: scaleFrom ρ ρ cs := by
+  rw [scalePow_eq_scaleFrom]; simp [scaleFrom]
+
+@[simp] theorem scaleFrom_length (σ ρ : R) (v : List R) : (scaleFrom σ ρ v).length = v.length := by
+  induction v generalizing σ with
+  | nil => rfl
+  | cons c cs ih => simp [scaleFrom, ih]
+
 /-! ### the forward network -/
 
 /-- decimation-in-frequency network on a block of length `2^k` with primitive `2^k`-th root `ρ` -/
